@@ -386,8 +386,14 @@ def run_check(prop, tier, batch_seed, jobs, runs=None, verbose=False):
                     "(PYTHONHASHSEED %d vs %d)%s"
                     % (prop, i, what, h1, h2, "; the library depends on something the simulator did not decide (see C03)" if what == "result" else "")
                 )
-            log("HARNESS-ERROR determinism self-test failed for %d of %d re-executed runs" % (len(nondet), len(det_idx)))
-            return 2
+            if not agg.viol:
+                log("HARNESS-ERROR determinism self-test failed for %d of %d re-executed runs" % (len(nondet), len(det_idx)))
+                return 2
+            # violations were found as well: they are reported (each replay file
+            # is executed in a fresh process and must reproduce on its own);
+            # runs whose outcome depends on what ran before them in the same
+            # process point at state the library keeps outside its instances
+            log("note: %d of %d re-executed runs differ between two processes; the violations below are reported on their own replays" % (len(nondet), len(det_idx)))
 
         # ---- violations ----
         findings = load_findings()
